@@ -285,7 +285,19 @@ def one_tree(ctx, mon, cls, boxes, queries):
                                                  "2..5" if len(boxes) <= 5 else "6..60" if len(boxes) <= 60 else ">60")],
                  (tuple(boxes), query), nontrivial=len(boxes) >= 2)
         try:
-            index.intersection(query)
+            got = index.intersection(query)
+            if isinstance(got, set) and ctx.rng.random() < 0.5:
+                # the caller owns the answer: editing it must not change any later answer
+                edit = ctx.rng.randrange(3)
+                if edit == 0:
+                    got.clear()
+                elif edit == 1 and got:
+                    got.discard(next(iter(got)))
+                else:
+                    got.add("not-an-id")
+                ctx.case([cls, "history: same query again after the caller edited the returned set"],
+                         (tuple(boxes), query, "again", edit), nontrivial=len(boxes) >= 2)
+                index.intersection(query)
         except Exception as exc:
             mon.depth_query = 0
             ctx.violation("exception in query", {"fn": "intersection", "boxes": boxes, "query": list(query),
@@ -293,9 +305,41 @@ def one_tree(ctx, mon, cls, boxes, queries):
     mon.registry.pop(id(index), None)
 
 
+def two_live_indexes(ctx, mon, rng):
+    """Two indexes alive at once, queried alternately: an answer belongs to the index asked."""
+    from plotink import rtree
+    cls_a, boxes_a = gen_boxes(rng)
+    cls_b, boxes_b = gen_boxes(rng)
+    if not boxes_a or not boxes_b or len(boxes_a) > 80 or len(boxes_b) > 80:
+        return
+    try:
+        ia, ib = rtree.Index(boxes_a), rtree.Index(boxes_b)
+    except Exception:
+        mon.depth_init = 0
+        return      # construction problems are reported by the single-index workload
+    for k in range(6):
+        index, boxes = (ia, boxes_a) if k % 2 == 0 else (ib, boxes_b)
+        # a query derived from the OTHER collection half of the time (shared / related arguments)
+        qcls, query = gen_query(rng, boxes_b if (k % 2 == 0 and rng.random() < 0.5) else boxes)
+        ctx.case(["history: two live indexes queried alternately", "query:" + qcls], (tuple(boxes), query, "two", k),
+                 nontrivial=len(boxes) >= 2)
+        try:
+            index.intersection(query)
+        except Exception as exc:
+            mon.depth_query = 0
+            ctx.violation("exception in query", {"fn": "intersection", "boxes": boxes, "query": list(query),
+                                                 "exception": repr(exc)})
+    mon.registry.pop(id(ia), None)
+    mon.registry.pop(id(ib), None)
+
+
 def run(ctx):
     mon = install(ctx)
     rng = ctx.rng
+    for _ in range(ctx.budget(1_500, 20_000)):
+        two_live_indexes(ctx, mon, rng)
+    ctx.need("history: two live indexes queried alternately", 3000)
+    ctx.need("history: same query again after the caller edited the returned set", 3000)
     n = ctx.budget(9_000, 150_000)
     for i in range(n):
         if not ctx.alive():
